@@ -219,7 +219,7 @@ impl PartialEq for {T} {{
             for f in fs:
                 if not f['ring']:
                     continue
-                sig, body = u.slice_fn(self.types[T]['mod'], f['impl'], f['name'])
+                sig, body = u.slice_fn(f['kw'].get('modkey', self.types[T]['mod']), f['impl'], f['name'])
                 for a_, b_ in f['kw'].get('subst', ()):
                     sig = sig.replace(a_, b_)
                     body = body.replace(a_, b_)
@@ -307,17 +307,23 @@ impl PartialEq for {T} {{
                         for tk, eqs in guard_terms:
                             e = " && ".join(f"{self.subst_actuals(dag.spec_txt(l), names, f)} == {self.subst_actuals(dag.spec_txt(r), names, f)}" for l, r in eqs)
                             gl.append(f"({e})" if tk else f"!({e})")
-                        texts = [f"if {' && '.join(gl)} {{"] + texts + ["}"]
+                        texts = [f"    if {' && '.join(gl)} {{"] + texts + ["    }"]
                     bytag.setdefault(tag, []).extend(texts)
             calls[label] = bytag
             self.ring_info[label] = info
         u.ring_info = self.ring_info
         # ---- Verus text: real functions with contracts
         for T, fs in by_ty.items():
-            u.add(f"impl {T} {{")
+          for wrapped in (False, True):
+            if not wrapped:
+                u.add(f"impl {T} {{")
             for f in fs:
+                if bool(f['kw'].get('wrap')) != wrapped:
+                    continue
                 label = f"{T}_{f['name']}"
                 kw = dict(f['kw'])
+                wrap = kw.pop('wrap', None)
+                modkey = kw.pop('modkey', self.types[T]['mod'])
                 if f['ring'] and calls.get(label):
                     place = f.get('place') or {}
                     ghost = list(kw.pop('ghost', ()))
@@ -337,5 +343,11 @@ impl PartialEq for {T} {{
                     kw['ghost'] = ghost
                 kw.pop('post_ghost', None)
                 kw.pop('transfer', None)
-                u.add(u.real_fn(self.types[T]['mod'], f['impl'], f['name'], self.contract(f), vis='pub', **kw))
-            u.add("}")
+                if wrap:
+                    u.add(wrap[0])
+                    u.add(u.real_fn(modkey, f['impl'], f['name'], self.contract(f), **kw))
+                    u.add(wrap[1])
+                else:
+                    u.add(u.real_fn(modkey, f['impl'], f['name'], self.contract(f), vis='pub', **kw))
+            if not wrapped:
+                u.add("}")
